@@ -194,6 +194,40 @@ def root_names(rep, prog, types, hooks, model):
     return problems
 
 
+def native_layer(rep, native_docs):
+    """xml/ser.rs and xml/de.rs are MODELLED in the abstract layer (element tree recorder / reader).  Every document the model produced for the
+    all-present, all-absent and empty-wrapped-list patterns is therefore rendered to text, decoded and re-encoded by the real codec:
+    the result must be the same document.  This validates the model of both files on the real build and is itself a native round trip."""
+    import C13replay
+    t1 = time.time()
+    cases = []
+    for ty, label, doc in native_docs:
+        try:
+            cases.append((ty, label, C13replay.render(doc)))
+        except Exception:      # noqa: BLE001
+            continue
+    if not cases:
+        return []
+    try:
+        outs = C13replay.reencode([(ty, xml) for ty, _, xml in cases])
+    except Exception as e:      # noqa: BLE001
+        rep.fail_inconclusive("native re-encoding of the model's documents failed: %r" % (e,))
+        return []
+    rep.traces_validated += len(cases)
+    problems = []
+    for (ty, label, xml), o in zip(cases, outs):
+        if "unknown_type" in o:
+            continue
+        got = o.get("ok")
+        if got is None or C13replay.canon(got) != C13replay.canon(xml):
+            problems.append(("native-reencode:%s:%s" % (ty, label), "the real codec re-encodes the %s document of %s as %s (decode/encode: %s)" % (
+                label, ty, (got or "")[:300], {k: str(v)[:120] for k, v in o.items() if k != "ok"}), {"name": "$", "document_text": xml}))
+    if not problems:
+        rep.obligation("xml/ser.rs + xml/de.rs on the real build: %d documents of the abstract layer (all-present with list lengths 1 and 2, all-absent, empty "
+                       "wrapped lists) decode and re-encode to themselves" % len(cases), "replayer(not solver-decided)", "holds", time.time() - t1, queries=len(cases))
+    return problems
+
+
 def encoder_only(rep, prog, types, hooks, model, pair_types):
     """types that are only ever encoded (operation outputs): element names, list shapes and element-to-member binding against the
     API model on the all-present documents (there is no decoder to round-trip through)"""
@@ -259,6 +293,7 @@ def codec(rep, quiet=False):
     n_runs = 0
     n_types = 0
     problems = []   # (key, what, cexdata)
+    native_docs = []   # (type, pattern, document): the abstract layer's documents, re-encoded by the real codec below
     for ty in tys:
         kind, x = types.shape(ty)
         if kind not in ("struct", "enum"):
@@ -286,6 +321,8 @@ def codec(rep, quiet=False):
                     ty_problems.append(("ser:%s:%s" % (ty, label), "serializer fails on %s: %s" % (label, e), None))
                     continue
                 docs[label] = (v, root)
+                if label in ("all-present/1", "all-present/2", "wrapped-lists-empty", "all-absent"):
+                    native_docs.append((ty, label, root.dump()))
                 out, e, _ = hooks.deserialize_content(ty, root.clone())
                 n_runs += 1
                 if e:
@@ -359,6 +396,7 @@ def codec(rep, quiet=False):
             rep.obligation("xml(%s): round trip over %d presence/list patterns, strictness, names vs model" % (ty, len(configs(types, ty))),
                            "rsx+z3", "holds", time.time() - t1, queries=len(configs(types, ty)))
         problems += ty_problems
+    problems += native_layer(rep, native_docs)
     eo_problems, n_eo = encoder_only(rep, prog, types, hooks, model, tys)
     problems += eo_problems
     problems += root_names(rep, prog, types, hooks, model)
